@@ -55,6 +55,28 @@ def run(tier, argv):
         for m in vlib.read_ndjson(out):
             if m["what"] == "position":
                 bad.append({"part": "parse-position", "what": "position", "content": m["bytes"], "pos": m["want_pos"], "want": str(m["want_pos"]), "got": str(m["got"].get("pos")), "trailing": m["trailing"]})
+    # (i') parse errors of the schema notation: the reference automaton of SchemaText (annotations, comments, shortcuts, rule objects),
+    #      walked through the real schema scanner; wherever both reject, the position is the first dead byte / the last byte
+    sd, srd = (1, 1) if quick else (2, 1)
+    gpath, g = jsongraph.export_schema_graph(work, sd, srd, rep, "a")
+    out = work.path("spos.ndjson")
+    notes = work.path("snotes.ndjson")
+    p = vlib.run_harness(hbin, ["c05graph", "-graph", gpath, "-out", out, "-positions", "-sut", "schema", "-notes", notes], timeout=6000)
+    if p.returncode != 0:
+        raise vlib.Infra("c05graph (schema) failed: " + p.stderr.decode()[-2000:])
+    for l in p.stderr.decode().split("\n"):
+        if l.startswith("@@SUMMARY "):
+            sm = json.loads(l[10:])
+            if sm["located"] == 0:
+                raise vlib.Infra("vacuous: no schema parse error was located")
+            tests += sm["located"]
+            rep.notes["schema_positions"] = {k: sm[k] for k in ("states", "transitions", "tests", "located", "unspecified", "lenient", "strict", "mismatches")}
+    for m in vlib.read_ndjson(out):
+        if m["what"] == "position":
+            bad.append({"part": "schema-parse-position", "what": "position", "content": m["bytes"], "pos": m["want_pos"], "want": str(m["want_pos"]), "got": str(m["got"].get("pos")), "trailing": False})
+        elif m["what"] == "panic":
+            bad.append({"part": "schema-parse-position", "what": "panic", "content": m["bytes"], "pos": m["want_pos"], "want": m["want"], "got": json.dumps(m["got"])[:160], "trailing": False})
+    rep.notes["schema_language_differences"] = [{"text": bytes(m["bytes"]).decode("latin-1"), "spec": m["want"], "scanner_ok": m["got"]["ok"]} for m in list(vlib.read_ndjson(notes))[:12]]
     # (ii) validation errors: position = start of the offending value / key / enclosing object (first violation in document order)
     docs, pcases, nd, nc = semcommon.generate(work, rep, "GenErrPos", "GenErrPosQuick.cfg" if quick else "GenErrPos.cfg", {"Level": "1"}, "pos")
     pm = work.path("posmism.ndjson")
@@ -73,7 +95,8 @@ def run(tier, argv):
     rep.cov["exhaustive"] = True
     rep.cov["rule"] = ("rendering: all contents over {a, space, tab, LF, CR} up to %s bytes x all positions + long lines around the 200-byte cut (%d cases), expected "
                        "line / text / caret by Err!Render; parse positions: transition cover of the exported RFC 8259 automaton (nesting <= %d) with the first "
-                       "dead byte as expected position (%d strings)" % ("5" if quick else "7", n, depth, tests))
+                       "dead byte as expected position, and of the exported automaton of the schema notation (SchemaText: annotations, comments, shortcuts, rule objects) "
+                       "through the schema scanner (%d strings located)" % ("5" if quick else "7", n, depth, tests))
     return rep, bad
 
 
